@@ -529,8 +529,12 @@ impl<'a> TypeHumanizer<'a> {
     fn write_array_type<W: Write>(&mut self, inner: &LuaType, w: &mut W) -> fmt::Result {
         // An optional element type ends in `?`; without parentheses `T?[]` reads back as `T?`
         // followed by a stray `[]`, so write `(T?)[]`.
-        let needs_parens =
-            matches!(inner, LuaType::Union(union) if union.into_vec().iter().any(|t| t.is_nil()));
+        // A negative integer literal needs them too: `-1[]` reads back as `-(1[])`.
+        let needs_parens = match inner {
+            LuaType::Union(union) => union.into_vec().iter().any(|t| t.is_nil()),
+            LuaType::IntegerConst(i) | LuaType::DocIntegerConst(i) => *i < 0,
+            _ => false,
+        };
         let saved = self.level;
         self.level = self.child_level();
         if needs_parens {
